@@ -80,6 +80,7 @@ type Gen struct {
 	rawResponders bool
 	useExpCont, noRawAddrs bool
 	stretch    bool
+	whale      bool
 	longLived  int // number of long-lived every-block contexts started so far
 	longLivedRefs map[string]bool
 	promoAnchors []int64 // interesting instants (offset ns) for targeted block times
